@@ -271,6 +271,10 @@ def parseClientMsg (text : String) (tree : JT) : DecE ClientMsg :=
     else if l == Gen.labelCount then decodeClientCount tree
     else .error "unknown client msg"
 
+/-- the source text of `ParseClientMsg` (regexp match, dispatch on the label to the `UnmarshalJSON` of each type) that
+    `parseClientMsg` follows -/
+def parseClientMsgExpected : String := "{ match := clientMsgRegexp.FindSubmatch(b) if len(match) == 0 { return nil, errors.New(\"not a client msg\") } switch string(match[1]) { case MsgLabelEvent: var ret ClientEventMsg if err := ret.UnmarshalJSON(b); err != nil { return nil, fmt.Errorf(\"failed to parse client msg: %w\", err) } return &ret, nil case MsgLabelReq: var ret ClientReqMsg if err := ret.UnmarshalJSON(b); err != nil { return nil, fmt.Errorf(\"failed to parse client msg: %w\", err) } return &ret, nil case MsgLabelClose: var ret ClientCloseMsg if err := ret.UnmarshalJSON(b); err != nil { return nil, fmt.Errorf(\"failed to parse client msg: %w\", err) } return &ret, nil case MsgLabelAuth: var ret ClientAuthMsg if err := ret.UnmarshalJSON(b); err != nil { return nil, fmt.Errorf(\"failed to parse client msg: %w\", err) } return &ret, nil case MsgLabelCount: var ret ClientCountMsg if err := ret.UnmarshalJSON(b); err != nil { return nil, fmt.Errorf(\"failed to parse client msg: %w\", err) } return &ret, nil default: return nil, errors.New(\"unknown client msg\") } }"
+
 def encodeClientMsg : ClientMsg → JT
   | .event e => .arr [.str Gen.labelEvent, encodeEvent e]
   | .req sub fs => .arr (.str Gen.labelReq :: .str sub :: fs.map encodeFilter)
